@@ -8,10 +8,13 @@ package main
 import (
 	"encoding/json"
 	"fmt"
+	"io"
 	"os"
+	"os/exec"
 	"path/filepath"
 	"sort"
 	"strconv"
+	"strings"
 	"sync"
 	"time"
 
@@ -166,6 +169,9 @@ func main() {
 		}
 		os.Exit(fn(os.Args[3:]))
 	}
+	if os.Getenv("VERIF_SUPERVISED") != "1" && len(os.Args) >= 3 {
+		os.Exit(supervise())
+	}
 	if len(os.Args) < 3 {
 		ids := []string{}
 		for id := range checks {
@@ -291,4 +297,116 @@ func firstN(s []string, n int) []string {
 		return []string{}
 	}
 	return s
+}
+
+
+// tailBuf keeps the last max bytes written to it.
+type tailBuf struct {
+	mu  sync.Mutex
+	b   []byte
+	max int
+}
+
+func (t *tailBuf) Write(p []byte) (int, error) {
+	t.mu.Lock()
+	t.b = append(t.b, p...)
+	if len(t.b) > t.max {
+		t.b = t.b[len(t.b)-t.max:]
+	}
+	t.mu.Unlock()
+	return len(p), nil
+}
+
+// supervise runs the check in a child process. Many checks drive mosproxy packages inside the
+// harness process; a panic or fatal error there (a goroutine of the code under test that nobody
+// recovers) would otherwise end the run without a verdict. When the child dies with a Go crash
+// whose stack contains mosproxy frames, the supervisor reports it as a violation of the property
+// whose workload provoked it, with the crash output as the witness.
+func supervise() int {
+	exe, err := os.Executable()
+	if err != nil {
+		return 3
+	}
+	id := os.Args[1]
+	cmd := exec.Command(exe, os.Args[1:]...)
+	cmd.Env = append(os.Environ(), "VERIF_SUPERVISED=1")
+	cmd.Stdin = os.Stdin
+	outTail := &tailBuf{max: 1 << 16}
+	errTail := &tailBuf{max: 1 << 18}
+	cmd.Stdout = io.MultiWriter(os.Stdout, outTail)
+	cmd.Stderr = io.MultiWriter(os.Stderr, errTail)
+	start := time.Now()
+	runErr := cmd.Run()
+	code := 0
+	if runErr != nil {
+		code = 3
+		if ee, ok := runErr.(*exec.ExitError); ok {
+			code = ee.ExitCode()
+		}
+	}
+	finished := strings.Contains(string(outTail.b), "\ncheck "+id+" tier=") || strings.HasPrefix(string(outTail.b), "check "+id+" tier=")
+	if finished || code == 0 {
+		return code
+	}
+	crash := string(errTail.b)
+	idx := -1
+	for _, mark := range []string{"panic: ", "fatal error: ", "SIGSEGV"} {
+		if i := strings.Index(crash, mark); i >= 0 && (idx < 0 || i < idx) {
+			idx = i
+		}
+	}
+	if idx < 0 {
+		fmt.Printf("INCONCLUSIVE property=%s reason=check process ended with status %d without a verdict\n", id, code)
+		return 3
+	}
+	crash = crash[idx:]
+	frame := ""
+	for _, l := range strings.Split(crash, "\n") {
+		if strings.HasPrefix(l, "github.com/IrineSistiana/mosproxy/") && !strings.HasPrefix(l, "github.com/IrineSistiana/mosproxy/verif/") {
+			frame = l
+			if i := strings.Index(frame, "("); i > 0 {
+				frame = frame[:i]
+			}
+			frame = frame[strings.LastIndex(frame, "/")+1:]
+			break
+		}
+	}
+	if frame == "" {
+		fmt.Printf("INCONCLUSIVE property=%s reason=the harness itself crashed (no mosproxy frame in the stack)\n", id)
+		return 3
+	}
+	if len(crash) > 6000 {
+		crash = crash[:6000]
+	}
+	tier := "quick"
+	if len(os.Args) > 2 && os.Args[2] == "thorough" {
+		tier = "thorough"
+	}
+	seed := seedFromEnv()
+	root := verifRoot
+	if alt := os.Getenv("VERIF_ALT"); alt != "" {
+		root = filepath.Join(verifRoot, ".work", "alt", alt)
+	}
+	first := strings.SplitN(crash, "\n", 2)[0]
+	cs, _ := json.Marshal(map[string]any{"crash": crash})
+	rf := ReplayFile{Property: id, Seed: seed, Tier: tier, Sig: "crash-in-process:" + frame, What: "the code under test crashed the process while this check's workload ran: " + first, Case: cs}
+	b, _ := json.MarshalIndent(rf, "", " ")
+	os.MkdirAll(filepath.Join(root, "replays"), 0755)
+	rp := filepath.Join(root, "replays", fmt.Sprintf("%s-seed%d-crash.json", id, seed))
+	os.WriteFile(rp, b, 0644)
+	level := "exploration"
+	if ck := checks[id]; ck != nil {
+		level = ck.Level
+	}
+	e := ev.New(id, tier, seed, level)
+	e.Rule = "the run ended in a crash of the code under test before the workload completed"
+	e.Eval(1)
+	e.Distinct("crash", frame)
+	e.Distinct("crash-first-line", first)
+	e.Sample(map[string]any{"crash": first, "frame": frame})
+	e.AddViolations(1)
+	e.Write(filepath.Join(root, "evidence"))
+	fmt.Printf("check %s tier=%s seed=%d evaluations=1 distinct=2 violations=1 inconclusive=0 wall=%.1fs\n", id, tier, seed, time.Since(start).Seconds())
+	fmt.Printf("VIOLATION property=%s replay=%s\n  [crash-in-process:%s] %s\n", id, rp, frame, first)
+	return 1
 }
